@@ -14,17 +14,15 @@ What the code does today is modelled, not what it should do:
   `TransferState` for `<data/>`, but NOT for `<open/>` and `<close/>`.
 * The final check (`checkData`) compares the byte count only if a non-zero size was announced
   and the MD5 only if a hash was announced.
-* `QXmppTransferIncomingJob::writeData` calls `QIODevice::write` ONCE per block: it neither loops on
-  a short write nor fails the job on an error.  The byte counter grows by what the device reported
-  as written (`d->done += written`), the running MD5 is fed the WHOLE block whenever the write did
-  not fail, a failed write (-1) is silently skipped, and the caller acknowledges the block and
-  advances its sequence counter in every case.  So the receiver's device content (`acc`), the bytes
-  fed to the hash (`fed`) and the counter (`done = |acc|`) can differ; all three are modelled.
-* The sender sends the next block on every `result`, closes on `error`, and reports `NoError`
-  the moment it has sent `<close/>`; responses are matched by the id of the last request.
-
-* Nothing in the in-band path has a timer: a request or response that vanishes (`lose`) leaves both jobs in
-  `TransferState` for ever.
+* `QXmppTransferIncomingJob::writeData` calls `QIODevice::write` ONCE per block and does not retry.  A write
+  that fails or takes only part of the block ends the job with `FileAccessError` (repo commit 705738b; before, the
+  short count was accepted and the whole block hashed).  The byte counter and the running MD5 only see blocks the
+  device took completely, so `done = |fed|`; the device content `acc` additionally holds the part of a block a short
+  write left behind.  The callers acknowledge the block and advance the sequence counter in every case.
+* Each in-band job has an inactivity timer (repo commit afd7dc9, 120 s), running while the job is in `TransferState`
+  and restarted on every progress: when it fires the job ends with `ProtocolError`.  Modelled as the explicit op
+  `timeout` ("the interval elapses with nothing happening"): every job in `TransferState` gives up.  A job in
+  `StartState` (the `<open/>` or its answer got lost) has no timer and still waits for ever.
 * A `<close/>` sent TO the sending client is answered with `<item-not-found/>` (`ibbCloseIqReceived` only looks for
   incoming jobs) and does not touch the sending job.
 
@@ -123,13 +121,6 @@ def Recv.acc (r : Recv) : List UInt8 := r.accRev.reverse
 /-- what the running hash has seen -/
 def Recv.fed (r : Recv) : List UInt8 := r.fedRev.reverse
 
-/-- `QXmppTransferIncomingJob::writeData`: one `write()`, no retry; `done` (= `|acc|`) grows by the reported count,
-the hash is fed the whole block unless the write failed -/
-def Recv.write (r : Recv) (pl : List UInt8) : Recv :=
-  match r.dev.accept (fun _ => r.accRev.length) pl.length with
-  | none => r
-  | some w => { r with accRev := (pl.take w).reverse ++ r.accRev, fedRev := pl.reverse ++ r.fedRev }
-
 /-- `QXmppTransferJob::terminate` + the queued `_q_terminated` -/
 def Recv.terminate (r : Recv) (cause : JError) : Recv :=
   if r.state = .finished then r
@@ -137,9 +128,20 @@ def Recv.terminate (r : Recv) (cause : JError) : Recv :=
                 finishedSignals := r.finishedSignals + 1,
                 errorSignals := r.errorSignals + (if cause = .none then 0 else 1) }
 
+/-- `QXmppTransferIncomingJob::writeData` (since repo commit 705738b): one `write()`, no retry.  If the device took the
+whole block, the byte counter `done` and the running hash advance by the block (`fed`; `done = |fed|`).  If the write
+failed or was short, whatever the device took stays in it, neither counter nor hash move, and the job ends with
+`FileAccessError` (the callers still acknowledge the block and advance the sequence counter). -/
+def Recv.write (r : Recv) (pl : List UInt8) : Recv :=
+  match r.dev.accept (fun _ => r.accRev.length) pl.length with
+  | none => r.terminate .access
+  | some w =>
+    if w = pl.length then { r with accRev := pl.reverse ++ r.accRev, fedRev := pl.reverse ++ r.fedRev }
+    else ({ r with accRev := (pl.take w).reverse ++ r.accRev } : Recv).terminate .access
+
 /-- does the final verification fail? (`QXmppTransferIncomingJob::checkData`) -/
 def Recv.checkFails (H : List UInt8 → List UInt8) (r : Recv) : Bool :=
-  (r.size != 0 && r.acc.length != r.size) ||
+  (r.size != 0 && r.fed.length != r.size) ||
   (match r.hash with
    | some h => H r.fed != h
    | none => false)
@@ -257,6 +259,8 @@ inductive Op
   | injectReply (origin back : Nat) (err : Option Cond)
   /-- the receiving peer sends `<close/>` to the sending client (XEP-0047 allows either side to close) -/
   | peerClose
+  /-- the inactivity interval elapses with nothing happening: the timer of every job in `TransferState` fires -/
+  | timeout
   deriving DecidableEq, Repr
 
 def bitMask (k : Nat) : UInt8 :=
@@ -337,6 +341,9 @@ def step (H : List UInt8 → List UInt8) (st : St) : Op → St × List Reply
     (feed st { id := st.s.requestId - back, to := 0, err := err, origin := origin }, [])
   -- `ibbCloseIqReceived` only knows incoming jobs: the sending client answers <item-not-found/>, the job goes on
   | .peerClose => (st, [{ id := 0, to := 1, err := some .itemNotFound }])
+  | .timeout =>
+    ({ st with s := if st.s.state = .transfer then st.s.terminate .protocol else st.s,
+               r := if st.r.state = .transfer then st.r.terminate .protocol else st.r }, [])
 
 def run (H : List UInt8 → List UInt8) (st : St) : List Op → St × List Reply
   | [] => (st, [])
@@ -381,7 +388,7 @@ def sstep (H : List UInt8 → List UInt8) (r : Recv) : SOp → Recv
     if r.state ≠ .transfer then r
     else
       let r1 := r.write bytes
-      if r1.size ≠ 0 ∧ r1.acc.length ≥ r1.size then r1.checkData H else r1
+      if r1.size ≠ 0 ∧ r1.fed.length ≥ r1.size then r1.checkData H else r1
   | .disconnect =>
     if r.state = .finished then r else r.checkData H
 
